@@ -90,7 +90,7 @@ def num_eq(a, b, exact):
         return False
 
 
-def val_eq(got, exp, exact=True, err_exact=False):
+def val_eq(got, exp, exact=True, err_exact=False, empty_text_is_blank=False):
     """got: normalised library value; exp: one reference outcome"""
     if exp is ANY:
         return True
@@ -105,7 +105,8 @@ def val_eq(got, exp, exact=True, err_exact=False):
     if exp is BLANK:
         return got is BLANK
     if got is BLANK:
-        return False
+        # the library hands an empty text result over as its blank object (which equals "" in its own comparisons)
+        return empty_text_is_blank and isinstance(exp, str) and exp == ''
     if isinstance(exp, bool) or isinstance(got, bool):
         return isinstance(exp, bool) and isinstance(got, bool) and exp == got
     if is_num(exp):
@@ -116,11 +117,11 @@ def val_eq(got, exp, exact=True, err_exact=False):
         return isinstance(got, dt.datetime) and got == exp
     if isinstance(exp, list):
         return isinstance(got, list) and len(got) == len(exp) and all(
-            val_eq(g, e, exact, err_exact) for g, e in zip(got, exp))
+            val_eq(g, e, exact, err_exact, empty_text_is_blank) for g, e in zip(got, exp))
     return got == exp
 
 
-def outcome_matches(outcome, expected, exact=True, err_exact=False, reject_ok=False):
+def outcome_matches(outcome, expected, exact=True, err_exact=False, reject_ok=False, empty_text_is_blank=False):
     """outcome: pipeline.Outcome of translate+evaluate; expected: iterable of acceptable reference outcomes.
     An exception while *evaluating* counts as 'an error value' (the library models most Excel errors as
     Python exceptions).  A failure while translating/loading only matches when reject_ok."""
@@ -132,4 +133,4 @@ def outcome_matches(outcome, expected, exact=True, err_exact=False, reject_ok=Fa
             return any(e is ANY or (isinstance(e, Err) and (not err_exact or e.kind is None)) for e in expected)
         return reject_ok and outcome.kind == 'LIB_EXC'
     got = norm(outcome.value)
-    return any(val_eq(got, e, exact, err_exact) for e in expected)
+    return any(val_eq(got, e, exact, err_exact, empty_text_is_blank) for e in expected)
